@@ -194,3 +194,35 @@ def _rest(db, chk, m, TR):
                why="`p = p or default` replaces legitimate falsy values (a threshold of 0, an empty selection) by the default")
     chk.ob("C07.R3-facade", "facade forwards trace and visualize", H.is_self_attr(bnd.get("t"), "t") and H.name_id(bnd.get("visualize")) == "visualize",
            ta.loc(cs[0]), found={k: ast.unparse(v) for k, v in bnd.items()}, accepted={"t": "self.t", "visualize": "visualize"})
+
+
+def thorough(db, chk) -> None:
+    """Validate the REFERENCE sweep (SWEEP_SPEC, the checker's own pandas source - not repository code) under the installed pandas
+    against a brute-force oracle on every pair of small merged-interval families: ratio == |comm ∩ comp| / |comm|."""
+    import pandas as pd
+    ns: dict = {}
+    exec(compile(SWEEP_SPEC, "<C07 reference sweep>", "exec"), ns)
+    pts = range(0, 4)
+    ivs = [(a, b) for a in pts for b in pts if a <= b]
+    fams = [(i,) for i in ivs] + [(i, j) for i in ivs for j in ivs if i[1] <= j[0] and i != j]
+    cells = lambda fam: {x for a, b in fam for x in range(a, b)}
+    frame = lambda fam: pd.DataFrame({"ts": [a for a, _ in fam], "end": [b for _, b in fam]})
+    n = bad = 0
+    first = None
+    for comm in fams:
+        cc = cells(comm)
+        if not cc:
+            continue
+        for comp in fams:
+            want = len(cc & cells(comp)) / len(cc)
+            for fname in ("sweep_join", "sweep_col"):
+                for (f1, f2, a1, a2) in ((comm, comp, 1, 2), (comp, comm, 2, 1)):
+                    got = ns[fname](frame(f1), frame(f2), frame(comm), a1, a2, 3)
+                    n += 1
+                    if abs(float(got) - want) > 1e-12:
+                        bad += 1
+                        first = first or (fname, comm, comp, float(got), want)
+    chk.ob("C07.T1-reference-validated", f"reference sweep == brute-force overlap ratio on all {n} (family pair, form, order) cases (endpoints 0..3, <= 2 intervals each, touching and empty intervals included)",
+           bad == 0, "sa/props/c07.py:SWEEP_SPEC", found=f"{bad} disagreeing" + (f", first {first}" if first else ""), accepted="0 disagreeing",
+           why="the template the code is compared with must itself compute the overlap ratio")
+    chk.analysed_add("template_cases", f"sweep:{n}")
